@@ -1,7 +1,7 @@
 """Sidecar contracts for checkpoint_schedules/mixed.py (F17-F21)."""
 from pyvc.contracts import Contract, ClassSpec, LoopSpec
 
-STREAM = ("C01", "C02", "C03", "C04", "C08", "C09", "C12", "C17", "C18")
+STREAM = ("C01", "C02", "C03", "C04", "C06", "C08", "C09", "C12", "C16", "C17", "C18")
 FR, WAD, WICS = 2, 3, 4        # StepType.FORWARD_REVERSE / WRITE_ADJ_DEPS / WRITE_ICS
 
 # shape contract M of the planner (DESIGN.md A.6), as seen through cache_step's wrapper
